@@ -67,7 +67,7 @@ Definition state := (auction * ledger)%type.
 
 (* the rejection message formats the bound with Int.Uint64(), which panics outside [0, 2^64) *)
 Definition err_u64 (bound : Z) : outcome unit :=
-  match uint64_c bound with Some _ => Err 3 | None => Panic end.
+  match uint64_c bound with Some _ => Ok tt | None => Panic end.
 
 Definition lift (r : lres) (code : Z) (k : ledger -> outcome state) : outcome state :=
   match r with LOk l => k l | LErr => Err code | LPanic => Panic end.
@@ -81,71 +81,66 @@ Definition refund_prev (a : auction) (l : ledger) (code : Z) (k : ledger -> outc
 
 (* ------------------------------------------------------------------------------------------ *)
 (* Bid: [who] bids coin (denom, amt) at block time [now]; (xd, xa) is MsgPlaceDebtBid's
-   ExpectedUserToken (V1D only, ignored elsewhere).  [validated] = the message went through
-   ValidateBasic (always so on chain; the flag only documents where the check lives).        *)
-Definition bid (a : auction) (l : ledger) (who denom amt now xd xa : Z) : outcome state :=
-  if status a =? 2 then Err 1 else                              (* auction record not found *)
+   ExpectedUserToken (V1D only, ignored elsewhere).  The handlers first run their checks
+   ([bid_check], in the order of the code; the result is what the bidder must pay and the new
+   sell / buy amounts of the record), then take the payment, refund the previous bidder and
+   store the record ([settle]; the same three statements in all five handlers).              *)
+Definition bid_check (a : auction) (denom amt xd xa : Z) : outcome (Z * Z * Z) :=
   match var a with
   | V1S =>
       if negb (amt >=? 0) then Err 20 else                      (* ValidateBasic: Amount.IsValid *)
       if negb (denom =? bid_denom a) then Err 2 else
-      match (if negb (status a =? 0)
-             then match change (factor a) (buy a) with
-                  | None => Panic
-                  | Some c => if amt <? buy a + c then Err 3 else Ok tt
-                  end
-             else if amt <=? buy a then Err 4 else Ok tt) with
-      | Ok _ =>
-          lift (send l who MOD (bid_denom a) amt) 5 (fun l1 =>
-          refund_prev a l1 6 (fun l2 =>
-          Ok (set_bid a who amt now (sell a) amt, l2)))
-      | Err c => Err c
-      | Panic => Panic
-      end
+      if negb (status a =? 0)
+      then match change (factor a) (buy a) with
+           | None => Panic
+           | Some c => if amt <? buy a + c then Err 3 else Ok (amt, sell a, amt)
+           end
+      else if amt <=? buy a then Err 4 else Ok (amt, sell a, amt)
   | V1D =>
       if negb (xd =? bid_denom a) then Err 2 else               (* expectedUserToken.Denom *)
       if negb (xa =? buy a) then Err 7 else                     (* expectedUserToken.Amount *)
       if negb (denom =? lot_denom a) then Err 8 else            (* bid.Denom vs ExpectedMintedToken *)
-      match (if negb (status a =? 0)
-             then match change (factor a) (sell a) with
-                  | None => Panic
-                  | Some c => if amt >? sell a - c then err_u64 (sell a - c) else Ok tt
-                  end
-             else if amt >? sell a then Err 4 else Ok tt) with   (* AuctionedToken = ExpectedMintedToken while no bid *)
-      | Ok _ =>
-          lift (send l who MOD (bid_denom a) xa) 5 (fun l1 =>
-          refund_prev a l1 6 (fun l2 =>
-          Ok (set_bid a who amt now amt (buy a), l2)))
-      | Err c => Err c
-      | Panic => Panic
-      end
+      if negb (status a =? 0)
+      then match change (factor a) (sell a) with
+           | None => Panic
+           | Some c => if amt >? sell a - c
+                       then obind (err_u64 (sell a - c)) (fun _ => Err 3)
+                       else Ok (xa, amt, buy a)
+           end
+      else if amt >? sell a then Err 4 else Ok (xa, amt, buy a)   (* AuctionedToken = ExpectedMintedToken while no bid *)
   | V2S | V2X | V2D =>
       if amt <=? 0 then Err 20 else                             (* ValidateBasic *)
       let rev := reverse (var a) in
       let last := if rev then sell a else buy a in              (* tokenLastBid *)
       let last_denom := if rev then lot_denom a else bid_denom a in
+      let ok := if rev then Ok (buy a, amt, buy a)              (* bidFromUser = DebtToken *)
+                else Ok (amt, sell a, amt) in
       if negb (denom =? last_denom) then Err 2 else
-      match (match bidder a with                                (* auctionData.BiddingIds != nil *)
-             | Some _ =>
-                 match change (factor a) last with
-                 | None => Panic
-                 | Some c =>
-                     if rev then (if amt >? last - c then err_u64 (last - c) else Ok tt)
-                     else (if amt <? last + c then err_u64 (last + c) else Ok tt)
-                 end
-             | None =>
-                 if rev then (if amt >? last then Err 4 else Ok tt)
-                 else (if amt <? last then Err 4 else Ok tt)
-             end) with
-      | Ok _ =>
-          let pay := if rev then buy a else amt in              (* bidFromUser *)
-          lift (send l who MOD (bid_denom a) pay) 5 (fun l1 =>
-          refund_prev a l1 6 (fun l2 =>                         (* refund = auctionData.DebtToken, not yet updated *)
-          Ok (if rev then set_bid a who amt now amt (buy a)
-              else set_bid a who amt now (sell a) amt, l2)))
-      | Err c => Err c
-      | Panic => Panic
+      match bidder a with                                       (* auctionData.BiddingIds != nil *)
+      | Some _ =>
+          match change (factor a) last with
+          | None => Panic
+          | Some c =>
+              if rev then (if amt >? last - c then obind (err_u64 (last - c)) (fun _ => Err 3) else ok)
+              else (if amt <? last + c then obind (err_u64 (last + c)) (fun _ => Err 3) else ok)
+          end
+      | None =>
+          if rev then (if amt >? last then Err 4 else ok)
+          else (if amt <? last then Err 4 else ok)
       end
+  end.
+
+Definition settle (a : auction) (l : ledger) (who amt now pay sell' buy' : Z) : outcome state :=
+  lift (send l who MOD (bid_denom a) pay) 5 (fun l1 =>
+  refund_prev a l1 6 (fun l2 =>                                 (* the refund is the OLD standing payment *)
+  Ok (set_bid a who amt now sell' buy', l2))).
+
+Definition bid (a : auction) (l : ledger) (who denom amt now xd xa : Z) : outcome state :=
+  if status a =? 2 then Err 1 else                              (* auction record not found *)
+  match bid_check a denom amt xd xa with
+  | Ok (pay, sell', buy') => settle a l who amt now pay sell' buy'
+  | Err c => Err c
+  | Panic => Panic
   end.
 
 (* ------------------------------------------------------------------------------------------ *)
